@@ -3,6 +3,7 @@ import MsiProofs.Lemmas.Codec
 /-
 Property-set codec: what `PropertySet::write` writes, `PropertySet::read` reads back.
 -/
+set_option linter.unusedSimpArgs false
 namespace MsiProofs.PropSetCodec
 open MsiModel MsiModel.Bytes MsiProofs.Codec
 
